@@ -332,7 +332,7 @@ def generate(rng, tier, boost):
             flen = len(enc_frame(MAGICS[chain], m))
             offs = list(range(min(flen, 24)))
             body = list(range(24, flen))
-            offs += body if len(body) <= (400 if big else 60) else sorted(rng.sample(body, 400 if big else 60))
+            offs += body if len(body) <= (400 if big else 30) else sorted(rng.sample(body, 400 if big else 30))
             for p in offs:
                 qs = [rng.randrange(1, 256)] + ([0x80, 0x01] if p < 24 and big else [])
                 for q in qs:
